@@ -994,7 +994,7 @@ class FileScanHelper:
                 context, next_fix_record.field_name, next_fix_record.field_value
             ):
                 POGGER.debug(
-                    "Token $ fix for plugin $ in action $ on field $ failed.",
+                    "Token fix for plugin $ in action $ on field $ failed.",
                     next_fix_record.plugin_id,
                     next_fix_record.plugin_action,
                     next_fix_record.field_name,
